@@ -5,7 +5,7 @@ from props._util import rng_for, run_cases
 
 LEVEL = "other"
 DEDUCTIVE = [{"module": "rnapolis.common", "sidecar": "contracts.common_c",
-              "targets": ["BpSeq.sequence", "BpSeq.__stems_entries", "lemma:strands_apart", "lemma:on3_map", "lemma:decoded_plain",
+              "targets": ["BpSeq.sequence", "BpSeq.__stems_entries", "lemma:strands_apart",
                           "DotBracket.__post_init__", "DotBracket.__post_init__@painted", "DotBracket.from_string",
                           "DotBracket.from_string@painted", "BpSeq.__make_dot_bracket", "BpSeq.fcfs"]}]
 TRUSTED = ["z3 5.1.0 / cvc5 1.0.3", "pyvc encoding of Python semantics (DESIGN 2.3)", "CPython 3.12"]
